@@ -9,6 +9,7 @@ package main
 
 import (
 	"bufio"
+	"bytes"
 	"encoding/json"
 	"fmt"
 	"math/rand"
@@ -732,6 +733,82 @@ func seamScenario(o *common.Opts, st *stats) {
 	st.scenarios++
 }
 
+// sinkConn is a connection that keeps what is written to it and never blocks.
+type sinkConn struct {
+	mu  sync.Mutex
+	buf bytes.Buffer
+	id  int
+}
+
+func (c *sinkConn) Read(p []byte) (int, error) { select {} }
+func (c *sinkConn) Write(p []byte) (int, error) {
+	c.mu.Lock()
+	defer c.mu.Unlock()
+	return c.buf.Write(p)
+}
+func (c *sinkConn) Close() error        { return nil }
+func (c *sinkConn) LocalAddr() net.Addr { return &net.TCPAddr{IP: net.IPv4(127, 0, 0, 1), Port: 1} }
+func (c *sinkConn) RemoteAddr() net.Addr {
+	return &net.TCPAddr{IP: net.IPv4(127, 0, 0, 1), Port: 10000 + c.id}
+}
+func (c *sinkConn) SetDeadline(t time.Time) error      { return nil }
+func (c *sinkConn) SetReadDeadline(t time.Time) error  { return nil }
+func (c *sinkConn) SetWriteDeadline(t time.Time) error { return nil }
+
+// firstSubscribers: several clients subscribe, at the same instant, to a channel nobody has used yet; every one of
+// them was confirmed, so a message published afterwards goes to every one of them. In-process, thousands of fresh
+// channels: the window is the creation of the channel.
+func firstSubscribers(o *common.Opts, st *stats) {
+	inproc.Setup(8, 1, filepath.Join(o.Work, "first-log"))
+	in := inproc.New()
+	defer in.Stop()
+	rounds := o.Pick(6000, 60000)
+	const n = 4
+	id := 0
+	for round := 0; round < rounds; round++ {
+		ch := fmt.Sprintf("first:%d:%d", o.Seed, round)
+		conns := make([]*sinkConn, n)
+		var wg sync.WaitGroup
+		start := make(chan struct{})
+		for i := range conns {
+			id++
+			conns[i] = &sinkConn{id: id}
+			wg.Add(1)
+			go func(c *sinkConn) {
+				defer wg.Done()
+				<-start
+				in.Exec(respc.Cmd("SUBSCRIBE", ch), c)
+			}(conns[i])
+		}
+		close(start)
+		wg.Wait()
+		r := in.Exec(respc.Cmd("PUBLISH", ch, "m"), nil)
+		st.published++
+		got := 0
+		for _, c := range conns {
+			c.mu.Lock()
+			vals, _, _ := respc.DecodeAll(c.buf.Bytes())
+			c.mu.Unlock()
+			for _, v := range vals {
+				if isPush(v) && len(v.Arr) == 3 && string(v.Arr[0].Str) == "message" {
+					got++
+				}
+			}
+		}
+		st.delivered += got
+		if r.V.Kind != ':' || r.V.Int != n || got != n {
+			report(witness{Kind: "lost-subscriber", Detail: fmt.Sprintf("in-process, round %d: %d clients subscribed to the new channel %q at the same instant and were confirmed; the PUBLISH that followed answered %s and %d of them received the message", round, n, ch, r.V.String(), got),
+				Sig: "confirmed subscriber of a new channel receives nothing"})
+			break
+		}
+		for _, c := range conns {
+			in.Exec(respc.Cmd("UNSUBSCRIBE", ch), c)
+		}
+	}
+	st.patterns["first subscribers of a new channel, simultaneously"]++
+	st.scenarios++
+}
+
 // goroutineWith returns the frames of the first goroutine of a dump whose stack mentions needle (the whole dump's
 // top frames if there is none).
 func goroutineWith(dump, needle string, n int) string {
@@ -907,6 +984,7 @@ func main() {
 		}
 	}
 	seamScenario(o, st)
+	firstSubscribers(o, st)
 	races, sample := 0, ""
 	if race {
 		races, sample = srv.RaceReports()
